@@ -201,8 +201,10 @@ def _shard_main(argv: list[str]) -> int:
     with open(specfile) as f:
         spec = json.load(f)
     try:
+        import faulthandler
         import signal
 
+        faulthandler.register(signal.SIGUSR1, all_threads=True)
         # in-process worker gateways escalate to SIGINT when execution does not end; record, don't die
         signal.signal(signal.SIGINT, lambda s, f: SIGINT_LOG.append(time.monotonic()))
         # ... and finally call os._exit(1); in a shard that would take the whole harness down: record it and end
@@ -288,6 +290,17 @@ def run_shards(modname: str, specs: list[dict], timeout: float, par: int = NCPU,
                     if rc is None and time.monotonic() - t0 < timeout:
                         continue
                     if rc is None:
+                        if os.environ.get("VERIF_DEBUG_EXPIRED"):
+                            # where was it? (the shard registers faulthandler on SIGUSR1)
+                            import signal
+
+                            try:
+                                os.kill(p.pid, signal.SIGUSR1)
+                                time.sleep(1.0)
+                                with open(os.path.join(os.environ["VERIF_DEBUG_EXPIRED"], f"expired-{modname}-{i}-{int(time.time())}.txt"), "w") as df:
+                                    df.write(repr(specs[i]) + "\n" + _tail(os.path.join(tmpdir, f"err{i}.txt"), 60000))
+                            except OSError:
+                                pass
                         _killpg(p)
                         expired.append(i)
                     else:
